@@ -137,29 +137,25 @@ def dispatch(ctx: Ctx) -> None:
             rr = [x for st in h.body for x in walk_no_nested(st) if isinstance(x, ast.Return)]
             ok = bool(rr) and isinstance(rr[0].value, ast.Tuple) and try_ev(ctx, fi, rr[0].value.elts[1]) is False
             ctx.expect("R-TABLE", fi, "a text without parameters is SM", ok, "", "", node=h)
-    # load: class choice from the detection result
+    # load: class choice from the detection result, parsing the stream the detection returned
     fl = p.func(LOAD)
-    loc = locals_of(fl)
-    flag_names = [n for n, bs in loc.b.items() for b in bs if b.index == (1,) and isinstance(b.value, ast.Call) and callee_name(ctx, fl, b.value) == DETECT]
-    file_names = [n for n, bs in loc.b.items() for b in bs if b.index == (0,) and isinstance(b.value, ast.Call) and callee_name(ctx, fl, b.value) == DETECT]
-    flag = one(sorted(set(flag_names)), f"is_ssc flag unpacked from _detect_ssc in {LOAD}")
-    choice = {}
-    for r in [n for n in body_walk(fl.node) if isinstance(n, ast.Return)]:
-        fs = facts(ctx, fl, r)
-        pol = None
-        for atom, po in fs:
-            if isinstance(atom, ast.Name) and atom.id == flag:
-                pol = po
-        if isinstance(r.value, ast.Call):
-            choice[pol] = (callee_name(ctx, fl, r.value), r)
-    ctx.expect("R-TABLE", fl, "load: is_ssc -> SSCSimfile, else SMSimfile",
-               {k: v[0] for k, v in choice.items()} == {True: "simfile.ssc.SSCSimfile", False: "simfile.sm.SMSimfile"},
-               "", f"class choice is {({k: v[0] for k, v in choice.items()})}", node=fl.node)
-    for pol, (name, r) in choice.items():
-        kw = {k.arg: k.value for k in r.value.keywords}
-        f_ok = "file" in kw and isinstance(kw["file"], ast.Name) and kw["file"].id in file_names
-        ctx.expect("R-FWD", fl, f"{name.rsplit('.', 1)[-1]} parses the stream returned by the detection", f_ok, src(kw.get("file")) if "file" in kw else "",
-                   f"file argument is {src(kw['file']) if 'file' in kw else 'absent'}; the detection may have replaced the stream by a re-readable copy", node=r)
+    from .tables import function_decs as _fd, judge as _tj, sums_of as _ts, closed as _cl
+    lsums = _ts(ctx, fl)
+    pairs = set()
+    for s_ in lsums:
+        for e in s_.effects:
+            if e.kind == "bind" and isinstance(e.target, (ast.Tuple, ast.List)) and len(e.target.elts) == 2 and all(isinstance(x, ast.Name) for x in e.target.elts) \
+                    and isinstance(e.value, ast.Call) and ast.unparse(e.value.func) == "_detect_ssc":
+                pairs.add((e.target.elts[0].id, e.target.elts[1].id))
+    require(len(pairs) == 1, f"{LOAD}: the result of _detect_ssc is not unpacked into (stream, is_ssc): {sorted(pairs)}")
+    fname, flag = next(iter(pairs))
+
+    def lout(s_):
+        k_, v_ = s_.terminal()
+        return "return " + (ast.unparse(v_) if v_ is not None else "None") if k_ == "return" else k_
+
+    _tj(ctx, "R-TABLE", fl, "load: is_ssc -> SSCSimfile, else SMSimfile, each parsing the stream returned by the detection (it may have been replaced by a re-readable copy) with the caller's strict",
+        _fd(lsums, lout), [flag], lambda a: f"return SSCSimfile(file={fname}, strict=strict)" if a[flag] else f"return SMSimfile(file={fname}, strict=strict)")
 
 
 def _fallback(ctx: Ctx, fi: FunctionInfo, decs) -> None:
